@@ -139,15 +139,20 @@ def gen_rule(rng, lo_month, hi_month, allow_forms=("M", "M", "M", "J", "N")):
     return ["N", n, t]
 
 
-def gen_spec(rng, with_dst=True):
+def gen_spec(rng, with_dst=True, gmt_p=0.0):
     std_name, dst_name = rng.sample(NAMES, 2)
+    if gmt_p and rng.random() < gmt_p:
+        # a standard zone called GMT or UTC: dateutil's tzstr reads its
+        # offset with the opposite sign unless posix_offset is asked for
+        std_name = rng.choice(["GMT", "UTC"])
     stdoff = rng.choice([0, 3600, -18000, 19800, -12600, 43200, -39600,
                          rng.randrange(-14 * 4, 14 * 4 + 1) * 900])
     spec = dict(std=std_name, stdoff=stdoff, dst=None)
     if not with_dst:
         return spec
     spec["dst"] = dst_name
-    spec["dstoff"] = stdoff + rng.choice([3600, 3600, 3600, 1800, 7200])
+    spec["dstoff"] = stdoff + (3600 if std_name in ("GMT", "UTC") else
+                               rng.choice([3600, 3600, 3600, 1800, 7200]))
     # start and end at least a month apart and a month from the year boundary
     a = gen_rule(rng, 2, 5)
     b = gen_rule(rng, 8, 11)
@@ -204,6 +209,23 @@ def gen_sibling(rng, spec):
             tz_string(sib) == tz_string(spec):
         sib["std"], sib["dst"] = std2, dst2
     return sib
+
+
+def dateutil_reading(spec):
+    """The specification as dateutil's tzstr reads its TZ string WITHOUT
+    posix_offset: for a standard zone named GMT or UTC the standard offset
+    has the opposite sign ('GMT+3' is three hours AHEAD of UTC), and a
+    daylight offset that is not spelled out is one hour more than that.
+    Returns the spec itself for other names, None when the string spells out
+    a daylight offset next to a GMT/UTC name (no documented reading)."""
+    if spec["std"] not in ("GMT", "UTC") or spec["stdoff"] == 0:
+        return spec
+    out = dict(spec, stdoff=-spec["stdoff"])
+    if spec.get("dst"):
+        if spec["dstoff"] != spec["stdoff"] + 3600:
+            return None
+        out["dstoff"] = out["stdoff"] + 3600
+    return out
 
 
 def rule_times_in_day(spec):
